@@ -7,6 +7,7 @@ whether the documented size error was raised."""
 import io
 import os
 import pty
+import signal
 import sys
 import termios
 import threading
@@ -141,8 +142,7 @@ def run_new(case):
         pad = ExactPadding(p["l"], p["t"], p["r"], p["b"], fill)
     kw = dict(animate=case.get("animate", True), check_size=case.get("check_size", True),
               allow_scroll=case.get("allow_scroll", False), hide_cursor=case.get("hide_cursor", True))
-    if "loops" in case:
-        kw["loops"] = case["loops"]
+    kw["loops"] = case.get("loops", 1)  # never the library's default (infinite)
     if "cache" in case:
         kw["cache"] = case["cache"]
     out, exc = capture(lambda: r.draw(None, pad, **kw), case.get("tty", True))
@@ -208,8 +208,7 @@ def run_old(case):
     va = V_ALIGN[case["va"]][pres % len(V_ALIGN[case["va"]])]
     kw = dict(animate=case.get("animate", True), scroll=case.get("scroll", False),
               check_size=case.get("check_size", True))
-    if "repeat" in case:
-        kw["repeat"] = case["repeat"]
+    kw["repeat"] = case.get("repeat", 1)  # never the library's default (infinite)
     if "cached" in case:
         kw["cached"] = case["cached"]
     kw.update(case.get("args", {}))
@@ -241,11 +240,17 @@ def run_case(case):
     saved = [m.get_terminal_size for m in mods]
     for m in mods:
         m.get_terminal_size = lambda: ts
+    def on_alarm(signum, frame):
+        raise TimeoutError("draw() did not return within 20 s")
+
+    signal.signal(signal.SIGALRM, on_alarm)
+    signal.alarm(20)
     try:
         return run_new(case) if case["api"] == "new" else run_old(case)
     except Exception as e:
         return {"error": f"{type(e).__name__}: {e} {traceback.format_exc()[-400:]}"}
     finally:
+        signal.alarm(0)
         for m, f in zip(mods, saved):
             m.get_terminal_size = f
 
